@@ -62,6 +62,8 @@ def materialise(job, cap=6, with_key=False, pre=()):
     h, seq, sd = job[:3]
     if list(seq) == ['GIANT']:      # the one very large document (giant_model below), addressed like any other (headers, seq, seed) job
         return giant_model(sd, headers=tuple(h))
+    if list(seq[:1]) == ['ALIGNED']:
+        return aligned_model(sd, total=int(seq[1]), headers=tuple(h))
     if list(seq[:1]) == ['GIANT']:
         return giant_model(sd, rows=int(seq[1]), headers=tuple(h))
     return X.seq_model(h, seq, sd, cap=cap, pre=pre, with_key=with_key)
@@ -192,7 +194,7 @@ def giant_model(seed, rows=1500, headers=('**kern', '**kern', '**text', '**kern'
     m.add([A.V('*k[f#]', 'KEY_SIGNATURE') if i in kcols else A.NULL_I for i in range(len(h))])
     m.add([A.V('*M4/4', 'TIME_SIGNATURE') if i in kcols else A.NULL_I for i in range(len(h))])
     durs = ['1', '2', '4', '8', '16', '32', '64', '2.', '4.', '8.', '16.', '4..', '12', '24']
-    pits = [l * k for k in (1, 2, 3) for l in 'cdefgab'] + [l * k for k in (1, 2, 3) for l in 'CDEFGAB']
+    pits = [l * k for k in (1, 2, 3, 4) for l in 'cdefgab'] + [l * k for k in (1, 2, 3, 4) for l in 'CDEFGAB']
     accs = ['', '#', '-', 'n', '##']
     sigs = [(), ('L',), ('J',), (';',), ("'",)]
     combos = [(d, p_, a, s) for s in sigs for a in accs for d in durs for p_ in pits]       # 14 700 different notes
@@ -231,6 +233,7 @@ def giant_model(seed, rows=1500, headers=('**kern', '**kern', '**text', '**kern'
         m.add(row)
     # the earliest rows once more: whatever was remembered about them (and evicted since) is asked for again
     if m.width() == len(h):
+        m.add([A.V(clefs[(i + seed) % len(clefs)], 'CLEF') if i in kcols else A.NULL_I for i in range(len(h))])     # the clefs of the beginning again
         for row in first_rows:
             m.add(row)
     m.add([A.V('==', 'BARLINES')] * m.width())
@@ -242,3 +245,58 @@ GIANT_HEADERS = ['**kern', '**kern', '**text', '**kern']
 
 def giant_jobs(seed, kern_only=False):
     return [(['**kern', '**kern'] if kern_only else list(GIANT_HEADERS), ['GIANT'], seed)]
+
+
+def aligned_model(seed, total=1100, headers=('**kern', '**text', '**kern')):
+    """a document whose RARE rows sit exactly on power-of-two line numbers (+ seed % 3 - 1): a split at line 2^k - 1, the join two lines later, then a lone key
+    signature; a lone time signature at 3 * 2^(k-1); a lone field comment at 2^k + 4; the terminator row is line `total` exactly.  For block / chunk /
+    page boundaries (64, 128, 256, 512, 1024) in importers, exporters and indexes."""
+    from .model import Model
+    h = list(headers)
+    m = Model(h)
+    off = seed % 3 - 1
+    special = {}
+    for k in range(5, 11):
+        p = 2 ** k
+        special[p - 1 + off] = 'split'
+        special[p + 1 + off] = 'join'
+        special[p + 2 + off] = 'key'
+        special[p + 4 + off] = 'comment'
+        special[3 * p // 2 + off] = 'time'
+    m.add([A.V('*clefG2', 'CLEF') if t == '**kern' else A.NULL_I for t in h])       # line 2
+    n = 0
+    while len(m.rows) < total - 2:
+        line = len(m.rows) + 1          # 1-based number of the line about to be written
+        w = m.width()
+        types = m.types()
+        what = special.get(line)
+        if what == 'split' and w == len(h):
+            m.add([A.SPLIT if i == 0 else A.NULL_I for i in range(w)])
+        elif what == 'join' and w > len(h):
+            m.add([A.JOIN if i in (0, 1) else A.NULL_I for i in range(w)])
+        elif what == 'key':
+            last = max(i for i, t in enumerate(types) if t == '**kern')
+            m.add([A.V('*k[b-e-]', 'KEY_SIGNATURE') if i == last else A.NULL_I for i in range(w)])
+        elif what == 'time':
+            m.add([A.V('*M3/4', 'TIME_SIGNATURE') if i == 0 else A.NULL_I for i in range(w)])
+        elif what == 'comment':
+            m.add([A.V('!only here', 'FIELD_COMMENTS') if i == 0 else A.V('!', 'FIELD_COMMENTS') for i in range(w)])
+        elif line % 5 == 0 and w == len(h):
+            m.add([A.V(f'={line // 5}', 'BARLINES', '=')] * w)
+        else:
+            m.add([A.data_cell(t, n, i, seed) for i, t in enumerate(types)])
+            n += 1
+    if m.width() > len(h):
+        m.add([A.JOIN if i in (0, 1) else A.NULL_I for i in range(m.width())])
+    else:
+        m.add([A.V('==', 'BARLINES')] * m.width())
+    m.close()
+    assert len(m.rows) == total, (len(m.rows), total)
+    return m
+
+
+ALIGNED_HEADERS = ['**kern', '**text', '**kern']
+
+
+def aligned_jobs(seed, totals=(128, 256, 1100)):
+    return [(list(ALIGNED_HEADERS), ['ALIGNED', str(t)], seed + k) for k, t in enumerate(totals)]
